@@ -486,6 +486,9 @@ func check(c *runCfg) int {
 	if ev.Level == "" {
 		ev.Level = "model_checking"
 	}
+	if ev.Assumptions == nil {
+		ev.Assumptions = []string{"go/ssa lowering faithful", "symgo encoding of Go semantics and intrinsics", "z3 sound"}
+	}
 	if err := writeJSON(filepath.Join(c.verif, "evidence", c.prop+".json"), ev); err != nil {
 		fmt.Fprintln(os.Stderr, "symgo: cannot write evidence:", err)
 	}
